@@ -193,6 +193,8 @@ class Check:
 
     def require(self, cond, what):
         if not cond:
+            if any(str(f[0]).startswith("model:") for f in self.failures):
+                return      # TLC stopped at a counterexample: that, not the thin run, is what to report
             raise MachineryFailure("non-vacuity / sanity requirement failed: " + what)
 
     # ---------------------------------------------------------------- results
